@@ -601,6 +601,119 @@ def generate(rng, opts=None, endian=None, n_packets=None, trees=None):
     raise RuntimeError("generator failed")
 
 
+def interactions(rng):
+    """Small descriptions aimed at interactions that random generation rarely reaches (each family was added
+    after a seeded change slipped through): several condition flags in one bit-field group, each governing
+    several optional fields; an unsized payload followed by static fields among them (padded) static arrays;
+    children told apart only by their constant size below a parent that is itself derived.  Returns PDL texts
+    (both byte orders are chosen at random); an independent PRNG stream, so the main corpus is unchanged."""
+    out = []
+    e = lambda: rng.choice(["little", "big"]) + "_endian_packets\n\n"
+    W8 = [8, 16, 24, 32, 40, 64]
+
+    # F1: k flags in one group
+    for i in range(3):
+        k = rng.choice([2, 2, 3])
+        decls = ["struct Pt%d {\n  u: 8,\n  v: 16\n}\n" % i,
+                 "enum Ek%d : 8 {\n  A = 1,\n  B = 2,\n  C = 0x10..0x1f,\n  Z = ..\n}\n" % i]
+        pre = rng.choice([0, 1, 3, 5])
+        hdr = (["p%d: %d" % (i, pre)] if pre else []) + ["f%d_%d: 1" % (i, j) for j in range(k)]
+        used = pre + k
+        fill = (-used) % 8 or (8 if rng.random() < 0.3 else 0)
+        if fill:
+            hdr.append(rng.choice(["_reserved_: %d" % fill, "q%d: %d" % (i, fill)]))
+        rng.shuffle(hdr)
+        opts = []
+        for j in range(k):
+            for n in range(rng.choice([1, 2, 2, 3])):
+                val = rng.choice([0, 1])
+                kind = rng.random()
+                ty = ("%d" % rng.choice(W8)) if kind < 0.6 else ("Pt%d" % i if kind < 0.8 else "Ek%d" % i)
+                opts.append("o%d_%d_%d: %s if f%d_%d = %d" % (i, j, n, ty, i, j, val))
+        if rng.random() < 0.5:
+            rng.shuffle(opts)
+        tail = ["t%d: 8" % i] if rng.random() < 0.5 else []
+        decls.append("packet Mf%d {\n  %s\n}\n" % (i, ",\n  ".join(hdr + opts + tail)))
+        out.append(e() + "\n".join(decls))
+
+    # F2: unsized payload / body, then static fields with (padded) static arrays
+    for i in range(3):
+        decls = ["struct El%d {\n  p: 8,\n  q: 8\n}\n" % i]
+        head = rng.choice([["k%d: 8" % i], ["a%d: 4" % i, "b%d: 12" % i], []])
+        pay = rng.choice(["_payload_", "_body_"])
+        tail = []
+        for n in range(rng.choice([1, 2, 3])):
+            r = rng.random()
+            if r < 0.3:
+                tail.append("c%d_%d: %d" % (i, n, rng.choice([8, 16, 24])))
+            else:
+                cnt = rng.randint(1, 4)
+                if r < 0.75:
+                    w = rng.choice([8, 16, 24])
+                    tail.append("x%d_%d: %d[%d]" % (i, n, w, cnt))
+                    size = cnt * w // 8
+                else:
+                    tail.append("x%d_%d: El%d[%d]" % (i, n, i, cnt))
+                    size = cnt * 2
+                if rng.random() < 0.6:
+                    tail.append("_padding_[%d]" % (size + rng.choice([0, 1, 3, 4])))
+        decls.append("packet Pt%dk {\n  %s\n}\n" % (i, ",\n  ".join(head + [pay] + tail)))
+        if head and head[0].startswith("k"):
+            decls.append("packet Pt%dc : Pt%dk (k%d = %d) {\n  y: 8,\n  z: 8[]\n}\n" % (i, i, i, rng.randrange(256)))
+        out.append(e() + "\n".join(decls))
+
+    # F4: an unsized array in a padded slot, followed by static fields whose total is below / above the padding
+    for i in range(3):
+        decls = ["struct Ue%d {\n  p: 8,\n  q: 8\n}\n" % i]
+        head = rng.choice([["h%d: 8" % i], []])
+        ety = rng.choice(["8", "16", "Ue%d" % i])
+        pad = rng.choice([2, 4, 6, 8])
+        tail = []
+        for n in range(rng.choice([1, 2, 3])):
+            if rng.random() < 0.5:
+                tail.append("c%d_%d: %d" % (i, n, rng.choice([8, 16, 32, 48])))
+            else:
+                tail.append("y%d_%d: 8[%d]" % (i, n, rng.choice([1, 3, 6, 9])))
+        decls.append("packet Ua%d {\n  %s\n}\n" % (i, ",\n  ".join(head + ["x%d: %s[]" % (i, ety), "_padding_[%d]" % pad] + tail)))
+        out.append(e() + "\n".join(decls))
+
+    # F5: element-size fields too narrow for the (static) element size: every non-empty value must be a SizeOverflow
+    for i in range(2):
+        w = rng.choice([2, 3, 4, 5])
+        esz = rng.choice([(1 << w), (1 << w) + 1, (1 << w) - 1, 2 * (1 << w)])
+        decls = ["struct Rec%d {\n  body: 8[%d]\n}\n" % (i, esz)]
+        other = 8 - w
+        hdr = ["_elementsize_(r%d): %d" % (i, w), "fl%d: %d" % (i, other)]
+        shape = rng.choice(["[]", "[2]"])
+        pre = ["_count_(r%d): 8" % i] if shape == "[]" and rng.random() < 0.5 else []
+        decls.append("packet Es%d {\n  %s\n}\n" % (i, ",\n  ".join(pre + hdr + ["r%d: Rec%d%s" % (i, i, shape)])))
+        out.append(e() + "\n".join(decls))
+
+    # F3: size-only children below a derived parent with fields
+    for i in range(3):
+        decls = ["packet Rt%d {\n  k: 8,\n  %s_payload_\n}\n" % (i, rng.choice(["", "g: 8,\n  "]))]
+        mids = []
+        for m in range(rng.choice([1, 2])):
+            mid = "Md%d_%d" % (i, m)
+            mf = rng.choice([["f: 8"], ["f: 8", "h: 16"], ["f: 4", "h: 4"]])
+            decls.append("packet %s : Rt%d (k = %d) {\n  %s,\n  _payload_\n}\n" % (mid, i, m + 1, ",\n  ".join(mf)))
+            mids.append(mid)
+            sizes = rng.sample([1, 2, 3, 4, 6], rng.choice([2, 3]))
+            for n, sz in enumerate(sizes):
+                if sz >= 3 and rng.random() < 0.5:
+                    fs = ["u: 8", "w: %d" % (8 * (sz - 1))]
+                else:
+                    fs = ["u: %d" % (8 * sz)]
+                decls.append("packet %s_S%d : %s {\n  %s\n}\n" % (mid, n, mid, ",\n  ".join(fs)))
+            if rng.random() < 0.5:
+                deep = "%s_D" % mid
+                decls.append("packet %s : %s (f = %d) {\n  q: 8,\n  _payload_\n}\n" % (deep, mid, rng.randrange(1, 16)))
+                for n, sz in enumerate(rng.sample([1, 2, 4], 2)):
+                    decls.append("packet %s_S%d : %s {\n  v: %d\n}\n" % (deep, n, deep, 8 * sz))
+        out.append(e() + "\n".join(decls))
+    return out
+
+
 def recursive_descriptions(rng):
     """Legal recursion: a cycle of declarations is allowed when it goes through an array without static
     size (nested TLV patterns).  Returned in one declaration order; the check permutes them."""
